@@ -202,7 +202,7 @@ func c03RequestFrame(p *Prog, r *Report) {
 	const rule = "C03.request-frame"
 	r.Rule(rule, "the frame a request hands to the backend writer is the stored result of the override decision; raw frames are written with EncodeRawFrame (header + the body bytes as received)")
 	req := p.proxyRequestType()
-	frmF := p.Field("proxy", req.Obj().Name(), "frm")
+	frmF := requestFrameField(p, req)
 	fn := p.methodOf(req, "Frame")
 	var bad []string
 	if fn == nil {
